@@ -754,6 +754,7 @@ package fsutil
 //@   requires sorted: forall i int, j int :: 0 <= i && i < j && j < len(in) ==> specPathLess(in[i], in[j])
 //@   ensures root: (exists i int :: 0 <= i && i < len(in) && in[i] == ".") ==> result == nil
 //@   ensures prefix_free: forall a int, b int :: 0 <= a && a < len(result) && 0 <= b && b < len(result) && a != b ==> !specInside(result[b], result[a])
+//@   ensures ascending: forall a int, b int :: 0 <= a && a < b && b < len(result) ==> specPathLess(result[a], result[b])
 //@   loop 0 invariant noroot: forall i int :: 0 <= i && i <= rangeindex ==> in[i] != "."
 //@   loop 0 invariant outfresh: fresh(out) && out != nil
 //@   loop 0 invariant room: cap(out) == len(in) && len(out) <= rangeindex + 1 && off(out) == 0
@@ -761,6 +762,20 @@ package fsutil
 //@   loop 0 invariant below: forall a int, i int :: 0 <= a && a < len(out) && rangeindex < i && i < len(in) ==> specPathLess(out[a], in[i])
 //@   loop 0 invariant ordered: forall a int, b int :: 0 <= a && a < b && b < len(out) ==> specPathLess(out[a], out[b])
 //@   loop 0 invariant prefix_free{inside_less,contiguity,pathless_asym,inside_hasprefix}: forall a int, b int :: 0 <= a && a < len(out) && 0 <= b && b < len(out) && a != b ==> !specInside(out[b], out[a])
+
+// FollowLinks: the keys of the resolver's set are distinct, sort.Slice orders them by the
+// verified comparator (a strict total order, so the result is strictly ascending), which is
+// exactly the precondition of dedupePaths; the result is ascending and prefix-free.
+//@ func FollowLinks
+//@   property C18
+//@   use pathless_irrefl pathless_trans pathless_total pathless_asym
+//@   opaque specPathLess specInside
+//@   modifies array os.DirEntry, array string, maps string struct{}
+//@   loop 1 invariant distinct: forall a int, b int :: {res[a], res[b]} 0 <= a && a < b && b < len(res) ==> res[a] != res[b]
+//@   loop 1 invariant seen: forall a int :: {res[a]} 0 <= a && a < len(res) ==> visited(0, res[a])
+//@   loop 1 invariant own: fresh(res)
+//@   ensures prefix_free: result1 == nil ==> forall a int, b int :: 0 <= a && a < len(result0) && 0 <= b && b < len(result0) && a != b ==> !specInside(result0[b], result0[a])
+//@   ensures ascending: result1 == nil ==> forall a int, b int :: 0 <= a && a < b && b < len(result0) ==> specPathLess(result0[a], result0[b])
 
 //@ func statFile$1
 //@   property C18
@@ -812,22 +827,91 @@ package fsutil
 //@   property C11 C06
 //@   ensures wrapped: isptr(result, hardlinkFilter) && asptr(result, hardlinkFilter) != nil && fresh(asptr(result, hardlinkFilter)) && asptr(result, hardlinkFilter).fs == fs
 
+// The goroutine structure of a send, as a sequential contract (what the spawned goroutines
+// do is covered by their own contracts; their interleaving is not modelled): exactly six
+// goroutines are started - the walker, four workers, the request loop - and the final
+// progress call (last == true) is made exactly once, by this function, after everything else.
 //@ func sender.run
 //@   property C06
-//@   trusted starts the walker, four workers and the request loop as goroutines (errgroup); no sequential contract
+//@   requires s != nil
+//@   modifies s.progressCurrent
+//@   effects GoSpawn GroupWait MuLock MuUnlock Progress
+//@   loop 0 invariant workers: 0 <= i && i <= 4 && cnt(GoSpawn) == old(cnt(GoSpawn)) + 1 + i && cnt(Progress) == old(cnt(Progress))
+//@   ensures six_goroutines: cnt(GoSpawn) == old(cnt(GoSpawn)) + 6
+//@   ensures final_progress: s.progressCb != nil ==> cnt(Progress) == old(cnt(Progress)) + 1 && arg(Progress, 1) && when(Progress) > when(GoSpawn)
+//@   ensures no_progress_callback: s.progressCb == nil ==> cnt(Progress) == old(cnt(Progress))
+
+// the walker goroutine: a failed walk is reported to the peer with an ERR packet
+//@ func sender.run$1
+//@   property C06
+//@   requires s != nil
+//@   modifies heap
+//@   effects *
+//@   ensures err_reported: result != nil ==> cnt(SendMsg) >= old(cnt(SendMsg)) + 1 && arg(SendMsg, 0) == types.PACKET_ERR
 
 //@ func Send
 //@   property C06 C11
-//@   modifies nothing
+//@   modifies type sender
+//@   effects GoSpawn GroupWait MuLock MuUnlock Progress
 //@   at call sender.run: wiring: isptr(arg0.conn, syncStream) && asptr(arg0.conn, syncStream).Stream == conn && isptr(arg0.fs, hardlinkFilter) && asptr(arg0.fs, hardlinkFilter).fs == fs && arg0.files != nil && len(arg0.files) == 0 && arg0.sendpipeline != nil
 
-//@ func receiver.run
+// ghost markers: the two-way diff / the disk writer's final wait returned success
+//@ effectdecl DiffOK()
+//@ effectdecl WaitOK()
+
+// the diff starts its two walkers and the merge loop as goroutines and waits for them
+//@ func doubleWalkDiff
+//@   property C01 C02 C05 C07
+//@   modifies heap
+//@   effects *
+//@   posteffect DiffOK() when err == nil
+
+// directory mtimes are re-applied only after every content writer has finished
+//@ func DiskWriter.Wait
+//@   property C01 C07
+//@   requires dw != nil
+//@   effects GroupWait Utimes WaitOK
+//@   posteffect WaitOK() when result == nil
+//@   at call path/filepath.WalkDir: writers_done_first: cnt(GroupWait) == old(cnt(GroupWait)) + 1
+
+// the diff goroutine of a receive: FIN is sent only after the diff (which ends with the
+// end-of-stats marker) and the disk writer's wait (all requested content written, directory
+// times fixed) both succeeded, and it is the last message of this goroutine
+//@ func receiver.run$1
+//@   property C07 C01
+//@   requires r != nil && dw != nil && w != nil
+//@   modifies heap
+//@   effects *
+//@   at call Stream.SendMsg: fin_after_diff_and_wait: cnt(DiffOK) > old(cnt(DiffOK)) && cnt(WaitOK) > old(cnt(WaitOK)) && when(DiffOK) < when(WaitOK) && asptr(arg0, types.Packet).Type == types.PACKET_FIN
+//@   ensures fin_iff_success: retErr == nil ==> cnt(SendMsg) >= old(cnt(SendMsg)) + 1 && arg(SendMsg, 0) == types.PACKET_FIN && when(WaitOK) < when(SendMsg)
+
+// a failure of the diff goroutine is reported to the peer
+//@ func receiver.run$1$1
 //@   property C07
-//@   trusted starts the diff/disk-writer goroutine and the receive loop (errgroup); the sequential tail is not under contract
+//@   requires r != nil
+//@   effects SendMsg MuLock MuUnlock
+//@   ensures err_reported: retErr != nil ==> cnt(SendMsg) == old(cnt(SendMsg)) + 1 && arg(SendMsg, 0) == types.PACKET_ERR
+//@   ensures silent: retErr == nil ==> cnt(SendMsg) == old(cnt(SendMsg))
+
+// The goroutine structure of a receive as a sequential contract (interleaving not modelled):
+// two goroutines - the diff/disk-writer and the receive loop; without a metadata-only
+// selector nothing else happens; with one, after both goroutines ended successfully the old
+// listing entry is removed (no-follow) and the listing buffer is written to a newly
+// created/truncated regular file at dest/.fsutil-metadata.
+//@ func receiver.run
+//@   property C07 C19
+//@   requires r != nil
+//@   modifies heap
+//@   effects *
+//@   ensures two_goroutines: result == nil ==> cnt(GoSpawn) == old(cnt(GoSpawn)) + 2 && when(GoSpawn) < when(GroupWait)
+//@   ensures no_listing: old(r.metadataOnly) == nil ==> cnt(OpenFile) == old(cnt(OpenFile)) && cnt(Remove) == old(cnt(Remove))
+//@   ensures listing: result == nil && old(r.metadataOnly) != nil ==> cnt(OpenFile) == old(cnt(OpenFile)) + 1 && arg(OpenFile, 0) == filepath.Join(old(r.dest), ".fsutil-metadata") && cnt(Remove) == old(cnt(Remove)) + 1 && arg(Remove, 0) == filepath.Join(old(r.dest), ".fsutil-metadata") && when(Remove) < when(OpenFile) && when(GroupWait) < when(Remove)
+//@   at call buffer.WriteTo: whole_listing: arg0 == metadataBuffer
 
 //@ func Receive
 //@   property C07
-//@   modifies nothing
+//@   modifies heap
+//@   effects *
 //@   at call receiver.run: wiring: isptr(arg0.conn, syncStream) && asptr(arg0.conn, syncStream).Stream == conn && arg0.dest == dest && arg0.files != nil && arg0.pipes != nil && len(arg0.files) == 0 && len(arg0.pipes) == 0 && arg0.merge == opt.Merge && arg0.differ == opt.Differ
 
 // exactly one data callback must be configured
